@@ -11,7 +11,8 @@ RULE = ("every registry type x routes {new, clone, clone-of-clone} + AES/Kuznyec
 def run(chk, tier):
     chk.proof_obligations("BlockCiphers.Thm.C16")
     quick = tier == "quick"
-    cfgs = ["zeroize"] if quick else ["zeroize", "zeroize-release", "zeroize-soft", "zeroize-kuzsoft", "zeroize-kuzcompact"]
+    cfgs = ["zeroize", "zeroize-cpuoff", "zeroize-kuzsoft", "zeroize-kuzcompact"] if quick else \
+        ["zeroize", "zeroize-cpuoff", "zeroize-release", "zeroize-soft", "zeroize-kuzsoft", "zeroize-kuzcompact", "allfeat"]
     ok, log = build_harness(CONFIGS["zeroize"])
     if not ok:
         chk.broken.append({"config": "zeroize", "build": log[-1500:]})
